@@ -381,12 +381,17 @@ def _derives_from_arg(F, B, l, seen):
 
 
 def run(ctx, rep):
+    balance.rule_release_retarget(ctx, rep)  # release-then-store through `&mut Handle` must store on unwinding exits too
     balance.rule_bal(ctx, rep)
     balance.rule_unw(ctx, rep)  # histories include operations that unwind: the count must still equal the owners afterwards
     rule_delta(ctx, rep)
     n = balance.rule_cbzero(ctx, rep)
     rep.floor("R-CBZERO", 5, "five public callback borrowers (with_raw_offset_arc, ThinArc::with_arc, with_arc_mut, OffsetArc::with_arc, ArcBorrow::with_arc)")
     rule_fwd(ctx, rep)
+    from . import c07 as _c07
+
+    _c07.rule_guard(ctx, rep)  # a handle re-pointed behind a transient must be written back on every exit, or the count of its old block no longer matches its owners
+    balance.rule_writeback(ctx, rep)
     balance.rule_count_addr(ctx, rep)
     rep.floor("R-COUNT-ADDR", 1, "one instance per run")
     balance.rule_use_after_release(ctx, rep)
